@@ -484,6 +484,7 @@ type Options struct {
 	ElementCycles bool    // parameters / responses / path items may refer to each other in cycles (C04 only: such documents have no meaning)
 	CaseTwins     bool    // names that differ from another name of the same section only by letter case
 	HTTPRoot      bool    // the root document lives at an http URL
+	EscapedLocs   bool    // every document lives at a location spelled with percent-escapes (blank, brackets, non-ASCII)
 	Twins         bool    // documents sharing their path with the root on other hosts / schemes, prefix-named documents
 	Spellings     bool    // vary the spelling of references (./, absolute, …)
 	NestedPtrs    bool    // references to nested pointer targets
@@ -513,6 +514,9 @@ var twinLayouts = []string{"file:///v/r/root.json", "http://h.example/v/r/root.j
 var httpLayouts = []string{"http://h.example/api/root.json", "http://h.example/api/other.json", "http://h.example/api/sub/s.json", "https://o.example/x.json", "http://h.example/p.json",
 	// the root's host name on another port: another site (same path as the root, and a sibling of it)
 	"http://h.example:8080/api/root.json", "http://h.example:8080/api/other.json", "http://h.example/api/Other.json"}
+
+// escLayouts: locations whose spelling needs percent-escapes in every document URL
+var escLayouts = []string{"file:///v/my%20api/root.json", "file:///v/my%20api/other%20one.json", "file:///v/my%20api/v%5B2%5D/s.json", "file:///v/%C3%A9t%C3%A9/p.json", "file:///v/my%20api/q%20r/o.json"}
 
 var nastyDefNames = []string{"a/b", "a~b", "a%20b", "a b", "é", "{x}", "a#b", "a?b", "x.y", "a%b"}
 
@@ -571,6 +575,9 @@ func Generate(r *rand.Rand, o Options) *World {
 	}
 	if o.HTTPRoot {
 		layouts = httpLayouts
+	}
+	if o.EscapedLocs {
+		layouts = escLayouts
 	}
 	urls := []string{layouts[0]}
 	perm := r.Perm(len(layouts) - 1)
